@@ -609,4 +609,113 @@ void h_eq()
   delete[] P.foreign; delete[] Q.foreign;
 }
 
+
+// -------------------------------------------------------------- find(char) / findLast(char)  (loop contracts)
+const char* g_fs_str; usize g_fs_len; usize g_fk; char g_fc; // ghosts for the scanning loops
+bool str_find_post(const String* a, char c, const char* ret)
+{
+  const char* b = a->data->str; usize len = a->data->len;
+  if(b != g_fs_str || len != g_fs_len) return false;                      // pure
+  if(!ret) return g_fk >= len || b[g_fk] != c;                           // no occurrence at all
+  return ret >= b && ret < b + len && *ret == c && (g_fk >= (usize)(ret - b) || b[g_fk] != c); // the FIRST one
+}
+bool str_findLast_post(const String* a, char c, const char* ret)
+{
+  const char* b = a->data->str; usize len = a->data->len;
+  if(b != g_fs_str || len != g_fs_len) return false;
+  if(!ret) return g_fk >= len || b[g_fk] != c;
+  return ret >= b && ret < b + len && *ret == c && (g_fk <= (usize)(ret - b) || g_fk >= len || b[g_fk] != c); // the LAST one
+}
+void h_find_char()
+{
+  NV_STRING_STATICS();
+  NV_PRE_INPUTS(P);
+  NV_INPUT(char, c); NV_INPUT(usize, fk);
+  String a, b;
+  build(a, b, P);
+  g_fs_str = a.data->str; g_fs_len = a.data->len; g_fk = fk; g_fc = c;
+  NV_PRE(wf_String(&a));
+  const char* r = a.find(c);
+  NV_POST("find(char): first occurrence or null", str_find_post(&a, c, r));
+  if(r && r != a.data->str) { NV_REACH("find_char.hit"); }
+  if(!r && a.data->len > 0) { NV_REACH("find_char.miss"); }
+  teardown(a, b, P);
+  delete[] P.foreign;
+}
+void h_findLast_char()
+{
+  NV_STRING_STATICS();
+  NV_PRE_INPUTS(P);
+  NV_INPUT(char, c); NV_INPUT(usize, fk);
+  String a, b;
+  build(a, b, P);
+  g_fs_str = a.data->str; g_fs_len = a.data->len; g_fk = fk; g_fc = c;
+  NV_PRE(wf_String(&a));
+  const char* r = a.findLast(c);
+  NV_POST("findLast(char): last occurrence or null", str_findLast_post(&a, c, r));
+  if(r && r != a.data->str + a.data->len - 1) { NV_REACH("findLast_char.hit"); }
+  if(!r && a.data->len > 0) { NV_REACH("findLast_char.miss"); }
+  teardown(a, b, P);
+  delete[] P.foreign;
+}
+
+// -------------------------------------------------------------- startsWith / endsWith (loop-free: Memory::compare contract)
+static bool affix_ok(const String& a, const String& o, bool r, bool suffix)
+{
+  usize la = a.data->len, lo = o.data->len;
+  const char* base = suffix ? a.data->str + (la >= lo ? la - lo : 0) : a.data->str;
+  if(r) return la >= lo && (g_cmp_k >= lo || base[g_cmp_k] == o.data->str[g_cmp_k]);
+  return la < lo || (g_cmp_wit < lo && base[g_cmp_wit] != o.data->str[g_cmp_wit]);
+}
+void h_affix()
+{
+  NV_STRING_STATICS();
+  NV_PRE_INPUTS(P);
+  NV_INPUT(usize, okind); NV_INPUT(usize, ocap); NV_INPUT(usize, olen);
+  NV_GHOST();
+  NV_ASSUME(okind <= 2 && (okind != 0 || olen == 0) && ocap <= NV_MAXSZ && olen <= NV_MAXSZ && (okind != 2 || olen <= ocap));
+  String a, b, o, dummy;
+  build(a, b, P);
+  Pre Q; Q.kind = okind; Q.cap = ocap; Q.len = olen; Q.share = false; Q.extra = 0; Q.foreign = 0;
+  build(o, dummy, Q);
+  NV_PRE(wf_String(&a) && wf_String(&o));
+  bool r = a.startsWith(o);
+  NV_CHECK(affix_ok(a, o, r, false), "startsWith <=> the first other.length() bytes are other's");
+  bool r2 = a.endsWith(o);
+  NV_CHECK(affix_ok(a, o, r2, true), "endsWith <=> the last other.length() bytes are other's");
+  if(r && olen > 0) { NV_REACH("affix.prefix"); }
+  if(r2 && olen > 0 && a.data->len > olen) { NV_REACH("affix.suffix"); }
+  teardown(a, b, P); teardown(o, dummy, Q);
+  delete[] P.foreign; delete[] Q.foreign;
+}
+
+// -------------------------------------------------------------- substr(start, length)
+void h_substr()
+{
+  NV_STRING_STATICS();
+  NV_PRE_INPUTS(P);
+  NV_INPUT(ssize, start); NV_INPUT(ssize, length);
+  NV_GHOST();
+  String a, b;
+  build(a, b, P);
+  usize len0 = a.data->len;
+  // reference model (documented clamping): negative start counts from the end; range clipped to the string
+  ssize st = start < 0 ? ((ssize)len0 + start < 0 ? 0 : (ssize)len0 + start) : ((usize)start > len0 ? (ssize)len0 : start);
+  usize en = length >= 0 ? ((usize)st + (usize)length > len0 ? len0 : (usize)st + (usize)length) : len0;
+  NV_ASSUME(start > -(ssize)NV_MAXSZ && start < (ssize)NV_MAXSZ && length < (ssize)NV_MAXSZ);
+  g_b = 0; g_blk0 = 0;
+  g_exp_len = en - (usize)st; g_exp_sole = true;
+  if(k < g_exp_len) { g_exp_has = true; g_exp_byte = pin(a, (usize)st + k, vbyte); }
+  NV_PRE(wf_String(&a));
+  {
+    String r = a.substr(start, length);
+    NV_CHECK(post_string(&r) && r.data != a.data, "substr: independent copy of the clipped range");
+    NV_CHECK(a.data->len == len0, "substr: source unchanged");
+    if(g_exp_len > 0 && st > 0) { NV_REACH("substr.inner"); }
+    r.data = &String::emptyData;
+  }
+  teardown(a, b, P);
+  delete[] P.foreign;
+}
+
 } // extern "C"
